@@ -180,6 +180,11 @@ struct UnknownSymbolError : public Error {
     Error(location, (boost::format("could not find symbol %s") % name).str()) {}
 };
 
+struct RedeclaredSymbolError : public Error {
+  RedeclaredSymbolError(Location location, std::string name) :
+    Error(location, (boost::format("symbol %s is already declared") % name).str()) {}
+};
+
 struct NonConstArrayLengthError : public Error {
   NonConstArrayLengthError(Location location, std::string name) :
     Error(location, (boost::format("array %s length is not constant") % name).str()) {}
@@ -1747,6 +1752,11 @@ class SymbolTable {
 public:
   void insert(SymbolIDRef identifier, std::unique_ptr<Symbol> symbol) {
     //std::cout << "insert " << identifier.first << ", " << identifier.second <<"\n";
+    if (symbolMap.count(identifier) > 0) {
+      // Replacing the symbol would leave the first declaration without one
+      // (and free a Frame that generated directives still point to).
+      throw RedeclaredSymbolError(symbol->getNode()->getLocation(), identifier.second);
+    }
     symbolMap[identifier] = std::move(symbol);
   }
 
